@@ -175,8 +175,24 @@ def _mutate(draw, s):
 def hostile_text_st(draw, seeds):
     """Mutated valid frames (seeds: list of valid text frames) and
     unstructured text."""
-    if draw(st.integers(0, 9)) == 0:
+    r = draw(st.integers(0, 9))
+    if r == 0:
         return draw(st.text(max_size=20))
+    if r == 1:
+        # declared counts / ids: absurd digit runs in the header fields
+        run = draw(st.sampled_from(
+            ['0', '1', '2', '00', '01', '7', '99999999', '999999999',
+             '9999999999', '99999999999', '1' * 99, '1' * 100, '1' * 101,
+             '4' * 300, '٣', '1٣', '²', '1e9', '-1', '+1', '1_0']))
+        t = draw(st.sampled_from(['5', '6', '5', '6', '2', '3']))
+        nsp = draw(st.sampled_from(['', '', '/x,', '/c,', '/unk,']))
+        pid = draw(st.sampled_from(['', '', '1', '0', '9' * 100, '9' * 101]))
+        body = draw(st.sampled_from(
+            ['["a",{"_placeholder":true,"num":0}]', '["a"]', '[]', '',
+             '["a",{"_placeholder":true,"num":' + run + '}]']))
+        if t in '56':
+            return t + run + '-' + nsp + pid + body
+        return t + nsp + run + body
     s = draw(st.sampled_from(seeds))
     for _ in range(draw(st.integers(1, 3))):
         s = _mutate(draw, s)
